@@ -21,14 +21,14 @@ def showO (o : Outcome) : String :=
 
 def b (x : Bool) : String := if x then "1" else "0"
 
-/-- `p <hex code point>*` ↦ `cpu=<n|none> mem=<n|none> sto=<n|none> srv=<cpu><mem><sto>` -/
+/-- `p <hex code point>*` ↦ `cpu=<n|none> mem=<n|none> sto=<n|none> srv=<cpu><mem><sto> cfg=<driver_cores><worker_cores><driver_memory><worker_memory>` -/
 def handle (line : String) : String :=
   match words line with
   | "p" :: cps =>
     match cps.mapM hex? with
     | some ns =>
       let s := ns.map toChar
-      s!"cpu={showO (parseCpu s)} mem={showO (parseMemory s)} sto={showO (parseStorage s)} srv={b (serverAcceptsCpu s)}{b (serverAcceptsMemory s)}{b (serverAcceptsStorage s)}"
+      s!"cpu={showO (parseCpu s)} mem={showO (parseMemory s)} sto={showO (parseStorage s)} srv={b (serverAcceptsCpu s)}{b (serverAcceptsMemory s)}{b (serverAcceptsStorage s)} cfg={b (configAcceptsCores s)}{b (configAcceptsCores s)}{b (configAcceptsMemory s)}{b (configAcceptsMemory s)}"
     | none => "bad-op"
   | _ => "bad-op"
 
